@@ -67,6 +67,9 @@ func genConfig(t *rapid.T, p *Profile) HConfig {
 	if p.ForceSingle && c.Single == 0 {
 		c.Single = 2
 	}
+	if p.ForceMixed {
+		c.Single = 0
+	}
 	c.CheckEvery = pick(t, []int{1, 1, 1, 2, 3, 6}, "check_every")
 	c.DirStyle = pick(t, []int{0, 0, 0, 0, 1, 2, 3, 4, 5, 6, 7, 8}, "dir_style")
 	c.WallClock = !p.RelTime && c.MonoTimes && uni(t, 6, "wall_clock") == 5
@@ -106,6 +109,9 @@ func genOpts(t *rapid.T, e *Env, cfg HConfig, mono bool, p *Profile) OpenOpts {
 		o.V1 = false
 	default:
 		o.V1 = rapid.Bool().Draw(t, "v1")
+		if p.ForceMixed && e != nil && uni(t, 3, "flip_version") > 0 {
+			o.V1 = !e.Opts.V1 // the other version than the one in force: new segments differ from the old ones
+		}
 		o.Keep = rapid.Bool().Draw(t, "keep")
 		o.Eager = uni(t, 4, "eager") == 3
 	}
